@@ -1035,7 +1035,7 @@ def check_one(ctx, case, res):
 
 
 def run(ctx):
-    ctx.build(FILES)
+    ctx.build_with_translator(FILES)
     quick = ctx.tier == 'quick'
     ctx.cov['rule'] = (
         'script mode: random small images (4..13 px), fit shapes 1..7, 1..8 sources at interior / edge-straddling / '
